@@ -25,7 +25,7 @@ DEFAULTS = {
     "target": "string", "sep": "comma",
 }
 DEFAULT_LAYOUT = {"point": "ads_only", "model": "constructed", "base": "na"}
-ROWKEYS = ["fmt", "cls", "pmode", "lbasis", "mbasis", "tclass", "layout", "vc", "kc", "model", "target", "sep", "matc", "ads", "rep", "mag"]
+ROWKEYS = ["fmt", "cls", "pmode", "lbasis", "mbasis", "tclass", "layout", "vc", "kc", "model", "target", "sep", "matc", "ads", "rep", "mag", "rowlab"]
 NOFEAT = cc._feat("none")
 
 
@@ -127,7 +127,9 @@ def variants(row):
             out.append(("model", dict(row, model="Langmuir")))
         if row["cls"] == "model" and row.get("mag", "order_one") != "order_one":
             out.append(("mag", dict(row, mag="order_one")))
-        out.append(("cls", dict(row, cls="base", layout="na", model="na", mag="na")))
+        if row["cls"] == "point" and row.get("rowlab", "default") != "default":
+            out.append(("rowlab", dict(row, rowlab="default")))
+        out.append(("cls", dict(row, cls="base", layout="na", model="na", mag="na", rowlab="na")))
     return out
 
 
@@ -228,10 +230,10 @@ def run_codec(pid, fmts, tier, seed):
     per = {f: sum(1 for r in rows if r["fmt"] == f) for f in fmts}
     run.set(exhaustive=False,
             rule="rows enumerated by Codec!Rows per format " + str(per) + ": full products class x layout x value class (28), key class (8) x value class (27), "
-                 "model (16) x origin of the model (4), model x temperature class, model x magnitude class of its numbers (4) x {constructed, as_fitted}" + (", unit configuration (54) x temperature class (5) x class, material class x adsorbate class x class, class x layout x value class x 4 key classes, "
+                 "model (16) x origin of the model (4), model x temperature class, model x magnitude class of its numbers (4) x {constructed, as_fitted}, point layout (21) x row labelling of the source table (5)" + (", unit configuration (54) x temperature class (5) x class, material class x adsorbate class x class, class x layout x value class x 4 key classes, "
                                                 "five orthogonal arrays instead of one" if thorough else "")
-                 + ", plus an orthogonal array (strength 2, TLC-checked) over the 15 dimensions class, pressure mode, loading basis, material basis, temperature class, "
-                 "layout, value class, key class, model, target, separator, material class, adsorbate class, representative, magnitude class; each row = build, export, import, "
+                 + ", plus an orthogonal array (strength 2, TLC-checked) over the 16 dimensions class, pressure mode, loading basis, material basis, temperature class, "
+                 "layout, value class, key class, model, target, separator, material class, adsorbate class, representative, magnitude class, row labelling; each row = build, export, import, "
                  "projection of both isotherms, judged by Codec!Judge; distinct = distinct rows; non-trivial = the isotherm carries data, a model or a focus metadata entry")
     run.assume("the projection harness/codec_common.project (type tags, canonical spellings, 9-decimal fixed point) is trusted; data values beyond 2e9 are not generated")
     run.assume("value domains are read from the quantifier text; None, NaN/inf, padded text, the empty text in Excel and non-ASCII AIF keys are treated as 'preserved or refused'")
